@@ -8,7 +8,18 @@ MISSED_FIRST = {"C02-1": "dict keys were always generated in mesh order", "C02-2
                 "C08-3": "magnitudes between 1e-10 and 1e-6 were all skipped as ambiguous for valid='norm'", "C09-3": "no rejected write over an existing path",
                 "C10-2": "no stale side-car next to an HDF5 file", "C12-3": "component-to-axis mappings were always written in label order",
                 "C14-3": "policy P2 never handed one subregion dictionary to two meshes", "C15-2": "no in-place writes through field.array between norm reads",
-                "C16-1": "no rejected write over an existing path"}
+                "C16-1": "no rejected write over an existing path",
+                "C03-5": "dot/cross were skipped for complex fields", "C03-6": "no in-place update of an operand (ufunc out=, write through .array) between two evaluations",
+                "C08-5": "the validity profile had no in-place rotation and no refused rotation", "C08-6": "no number on the left of a binary operator (0 + f) in the validity profile",
+                "C09-5": "OVF 1.0 foreign files: unit/labels were not judged; violations that depend on state the library keeps between operations were not replayable (now: complete-history fallback + minimisation in pristine forked children)",
+                "C09-6": "paths never shared a stem (p0.omf / p0.ovf)", "C10-4": "no twin fields on the same geometry differing in tolerance factor / corner dtype; corner dtype not compared",
+                "C10-6": "no field with more than 2**16 values in the HDF5 profile", "C12-4": "no renaming of component labels on a derived field",
+                "C12-6": "no integer-typed corners in the geometric profiles", "C13-4": "no far-away reference point / translation that collapses an edge by rounding in the rejected-step catalogue",
+                "C14-5": "no integer-typed corners with half-integer cells in the subregion profile", "C15-6": "no assignment of another field's array object through the array setter",
+                "C16-5": "no labels ending in -component", "C16-6": "representation aliases bin8/default never used; process-global writer state (see C09-5)",
+                "C18-4": "the result field of an earlier rotation was never kept and compared later; no successive rotations onto the same mesh",
+                "C18-6": "align_vector always with unit-length, non-(anti)parallel vectors"}
+NOT_APPLICABLE = {"C15-5": "the change affects a norm given as a scalar Field on another mesh; C15 enumerates constant, per-cell array and function of position as norm specifications, so no clause of C15 is broken and the check (rightly) stays quiet"}
 verify = {}
 for f in sys.argv[1:]:
     for line in open(f):
@@ -19,6 +30,10 @@ rows = json.load(open(os.path.join(VERIF, "evidence", "selftest_mutants.json")))
 by = {}
 for r in rows:
     by.setdefault(r["mutant"], []).append(r)
+import io, contextlib
+buf = io.StringIO()
+_stdout = sys.stdout
+sys.stdout = buf
 print("| change | property | needs to manifest | caught by (signature of the first violation) | first attempt |")
 print("|---|---|---|---|---|")
 for d in sorted(glob.glob(os.path.join(VERIF, "seeded", "*-*"))):
@@ -31,9 +46,11 @@ for d in sorted(glob.glob(os.path.join(VERIF, "seeded", "*-*"))):
         meta["confirmed_here"] = dict(verify[name], how="tools/verify_seeded.sh: demo.py on /repo (exit 0) and on a patched scratch copy (exit 1); tools/baseline.py on the patched copy (all 3628 baseline tests pass)")
     meta["detection"] = {"caught": bool(caught), "signatures": sorted({s for r in caught for s in r["signatures"]})[:4], "command": f"tools/mutant.sh seeded/{name}/patch.diff {meta['property']} 6000",
                          "missed_at_first": name in MISSED_FIRST, "strengthened_because": MISSED_FIRST.get(name)}
+    if name in NOT_APPLICABLE:
+        meta["detection"]["outside_property"] = NOT_APPLICABLE[name]
     json.dump(meta, open(mp, "w"), indent=1)
     needs = str(meta.get("needs_to_manifest", ""))[:160].replace("|", "/").replace("\n", " ")
-    print(f"| seeded/{name} | {meta['property']} | {needs} | {', '.join(meta['detection']['signatures'][:2]) or 'MISSED'} | {'missed, then caught after: ' + MISSED_FIRST[name] if name in MISSED_FIRST else 'caught'} |")
+    print(f"| seeded/{name} | {meta['property']} | {needs} | {', '.join(meta['detection']['signatures'][:2]) or ('not a violation of the property as stated' if name in NOT_APPLICABLE else 'MISSED')} | {'missed, then caught after: ' + MISSED_FIRST[name] if name in MISSED_FIRST else 'caught'} |")
 print()
 print("| own mutant | property | caught by |")
 print("|---|---|---|")
@@ -41,3 +58,11 @@ for name, res in sorted(by.items()):
     if "-" in name[:6]:
         continue
     print(f"| mutants/{name}.patch | {res[0]['property']} | {', '.join(res[0]['signatures'][:2]) if res[0]['caught'] else 'MISSED'} |")
+
+sys.stdout = _stdout
+text = buf.getvalue()
+print(text)
+dp = os.path.join(VERIF, "DESIGN.md")
+d = open(dp).read()
+a, b = d.index("<!-- CATCH-MATRIX-BEGIN -->"), d.index("<!-- CATCH-MATRIX-END -->")
+open(dp, "w").write(d[:a] + "<!-- CATCH-MATRIX-BEGIN -->\n" + text + d[b:])
